@@ -203,6 +203,7 @@ func (d *Directory) updateChildEntry(c child) error {
 	if err != nil {
 		return err
 	}
+	verifSched("Directory.updateChildEntry:localDone")
 
 	// Continue to propagate the update process upwards
 	// (all the way up to the root).
